@@ -144,7 +144,7 @@ def nest(objs: list, rnd, depth: int, twin=lambda o: o):
     if depth <= 0:
         return tuple(objs) if len(objs) > 1 else objs[0]
     kind = rnd.choice(['flat-list', 'flat-tuple', 'each-dict', 'each-list', 'dict-split', 'list-split',
-                       'dict-of-dicts', 'dup', 'single'])
+                       'dict-of-dicts', 'dup', 'single', 'weighted'])
     if kind == 'single' and len(objs) == 1:
         return objs[0]
     if kind == 'flat-list':
@@ -155,6 +155,8 @@ def nest(objs: list, rnd, depth: int, twin=lambda o: o):
         return [{'m': o} for o in objs]
     if kind == 'each-list':
         return tuple([o] for o in objs)
+    if kind == 'weighted':
+        return [(0.5, o) for o in objs]       # pairs that begin with a scalar
     if kind == 'dict-of-dicts':
         return {f'e{i}': {'m': o, 'w': i} for i, o in enumerate(objs)}
     if kind == 'dup':
